@@ -44,6 +44,11 @@ def specs(r):
         S.append(('scat1c/%g' % bias, lambda bias=bias: ScatLayer(magbias=bias, combine_colour=True), (1, 3, 16, 16), bias))
         S.append(('scat1rot/%g' % bias, lambda bias=bias: ScatLayer(biort='near_sym_b_bp', magbias=bias), (1, 1, 16, 16), bias))
         S.append(('scat2/%g' % bias, lambda bias=bias: ScatLayerj2(magbias=bias), (1, 1, 16, 16), bias))
+    # every dispatch of the two layers: band-pass family x colour combination
+    S.append(('scat1rotc/0.01', lambda: ScatLayer(biort='near_sym_b_bp', magbias=1e-2, combine_colour=True), (1, 3, 16, 16), 1e-2))
+    S.append(('scat2c/0.01', lambda: ScatLayerj2(magbias=1e-2, combine_colour=True), (1, 3, 16, 16), 1e-2))
+    S.append(('scat2rot/0.01', lambda: ScatLayerj2(biort='near_sym_b_bp', qshift='qshift_b_bp', magbias=1e-2), (1, 1, 16, 16), 1e-2))
+    S.append(('scat2rotc/0.01', lambda: ScatLayerj2(biort='near_sym_b_bp', qshift='qshift_b_bp', magbias=1e-2, combine_colour=True), (1, 3, 16, 16), 1e-2))
     return S
 
 def inv_specs():
